@@ -250,6 +250,21 @@ def judge(case) -> Outcome:
         rng = random.Random(case["subset_seed"])
         terms = list(ms.formula)
         sub = rng.sample(terms, min(case["subset_k"], len(terms)))
+        # the same terms named by one string, asked for under one ordering and then under another: each answer is its own
+        if any(str(t) == "1" for t in terms) and not any("`" in str(t) for t in sub):
+            from formulaic import Formula
+
+            text = " + ".join(str(t) for t in sub if str(t) != "1") or "1"
+            try:
+                for o in ("none", "degree", "none", "sort"):
+                    want = [i for t in Formula(text, _ordering=o) for i in ms.term_indices[t]]
+                    got = list(ms.get_term_indices(text, ordering=o))
+                    if got != want:
+                        out.fail("c10.get_term_indices", f"{tag}: get_term_indices({text!r}, ordering={o!r}) = {got}, the terms of that formula in that order sit at {want}")
+                        break
+                out.see("string_specs_under_several_orderings")
+            except Exception as e:  # noqa: BLE001
+                out.fail("c10.get_term_indices", f"{tag}: get_term_indices({text!r}) raised {type(e).__name__}: {str(e)[:120]}")
         for kw in ({}, {"ordering": "none"}):
             try:
                 with quiet():
